@@ -156,7 +156,7 @@ impl Scenario for WsBatch {
 		} else {
 			(vec![FeOp::Batch(self.n)], vec![EnvEvent::Raw { after: 1, text: self.reply.clone() }], 0)
 		};
-		clim::setup(&CliScenarioCfg { id_kind: self.kind, ops, env, fail_send_at: None, tx_points: false, buffer_cap: 4, late_after })
+		clim::setup(&CliScenarioCfg { rx_split: false, ping_ms: None, warmup: 0, id_kind: self.kind, ops, env, fail_send_at: None, tx_points: false, buffer_cap: 4, late_after })
 	}
 	fn judge(&self, st: CliState, _t: &[String], panics: &[String], _s: Status) -> Verdict {
 		let l = st.log.lock().unwrap();
@@ -274,7 +274,7 @@ impl Scenario for ConcurrentBatches {
 	}
 	fn setup(&self) -> CliState {
 		let env = (0..self.ops.len()).map(|k| EnvEvent::Answer { msg: k, kind: clim::AnswerKind::OkRev }).collect();
-		clim::setup(&CliScenarioCfg { id_kind: self.kind, ops: self.ops.clone(), env, fail_send_at: None, tx_points: false, buffer_cap: 4, late_after: 0 })
+		clim::setup(&CliScenarioCfg { rx_split: false, ping_ms: None, warmup: 0, id_kind: self.kind, ops: self.ops.clone(), env, fail_send_at: None, tx_points: false, buffer_cap: 4, late_after: 0 })
 	}
 	fn judge(&self, st: CliState, _t: &[String], panics: &[String], _s: Status) -> Verdict {
 		let l = st.log.lock().unwrap();
